@@ -168,6 +168,77 @@ func roundtrip(c *explore.Ctx) {
 	}
 }
 
+// ---- unions: the interface field tagged union selects the member
+
+type unionV struct {
+	A bool   `thrift:"1"`
+	B int32  `thrift:"2"`
+	C string `thrift:"3"`
+	F any    `thrift:",union"`
+}
+
+func unionRoundTrip(c *explore.Ctx) {
+	p := Protocols[c.Choose(len(Protocols))]
+	member := c.Choose(4) // A, B, C, none
+	zero := c.Bool()      // the selected member holds its zero value
+	var v unionV
+	switch member {
+	case 0:
+		a := !zero
+		v.A, v.F = a, &a
+	case 1:
+		b := int32(42)
+		if zero {
+			b = 0
+		}
+		v.B, v.F = b, &b
+	case 2:
+		s := "x"
+		if zero {
+			s = ""
+		}
+		v.C, v.F = s, &s
+	}
+	desc := fmt.Sprintf("union with member %d selected (zero value: %v) over %s", member, zero, p.Name)
+	var b []byte
+	var err error
+	var out unionV
+	if pv, ps := explore.Catch(func() {
+		b, err = thrift.Marshal(p.P, v)
+		if err == nil {
+			err = thrift.Unmarshal(p.P, b, &out)
+		}
+	}); pv != nil {
+		c.Fail("union:panic:"+ps, "round trip panics: %v for %s", pv, desc)
+		return
+	}
+	if err != nil {
+		c.Fail("union:error", "round trip fails: %v for %s", err, desc)
+		return
+	}
+	sel := func(u unionV) int {
+		switch u.F.(type) {
+		case *bool:
+			return 0
+		case *int32:
+			return 1
+		case *string:
+			return 2
+		}
+		return 3
+	}
+	if sel(out) != sel(v) || out.A != v.A || out.B != v.B || out.C != v.C {
+		if member != 3 && zero && sel(out) == 3 {
+			c.Fail("union:zero-valued-member-lost", "the selected member %d holds its zero value: nothing is written (bytes % x) and the union comes back empty, for %s", member, b, desc)
+		} else {
+			c.Fail("union:value-differs", "Unmarshal(Marshal(v)) = %+v (selected %d), want %+v (selected %d), for %s", out, sel(out), v, sel(v), desc)
+		}
+	}
+	c.NontrivialStr("union", p.Name, fmt.Sprint(member, zero))
+	c.Outcome(fmt.Sprintf("member=%d zero=%v", member, zero))
+	c.Case(map[string]any{"protocol": p.Name, "member": member, "zero_value": zero, "bytes": fmt.Sprintf("%x", b)})
+}
+
 // ---- collection lengths: short-form boundaries of the compact headers and the chunked growth of long lists
 
 type lenItem struct {
@@ -273,6 +344,7 @@ func Spec() *explore.Spec {
 	return &explore.Spec{
 		ID: "C04",
 		Families: []*explore.Family{
+			{Name: "union", ShardDepth: 2, Body: unionRoundTrip, Doc: "a struct with a `thrift:\",union\"` interface field: each member selected (or none), holding a non-zero or its zero value x 3 protocols: the selection and the values survive the round trip"},
 			{Name: "collection-lengths", ShardDepth: 2, Body: collectionLens, Doc: "lists of 7 element kinds, a map and a set with 0..17, 127..129, 1023..1025, 1500, 2047..2049, 3000, 5000 elements (compact short-form boundary at 15, the decoder's chunked growth beyond 1024) x 3 protocols"},
 			{Name: "roundtrip", ShardDepth: 2, Body: roundtrip, Bound: func(tier string) int {
 				if tier == "thorough" {
